@@ -7,6 +7,7 @@ CONSTANTS
   MaxFaults = 1
   AllowCrash = FALSE
   AllowEmptyLeftover = FALSE
+  AllowTornRmdir = FALSE
   CombinerClearsQueueOnFailedFlush = FALSE
   Hash <- HashId
   ReaderReportsHunks = TRUE
